@@ -561,11 +561,11 @@ impl<const BITS: usize, const LIMBS: usize> Shl<Self> for Uint<BITS, LIMBS> {
         if BITS == 0 {
             return self;
         }
-        // Rationale: if BITS is larger than 2**64 - 1, it means we're running
-        // on a 128-bit platform with 2.3 exabytes of memory. In this case,
-        // the code produces incorrect output.
-        #[allow(clippy::cast_possible_truncation)]
-        self.wrapping_shl(rhs.as_limbs()[0] as usize)
+        // A shift amount that does not fit `usize` shifts out every bit.
+        match usize::try_from(rhs) {
+            Ok(rhs) => self.wrapping_shl(rhs),
+            Err(_) => Self::ZERO,
+        }
     }
 }
 
@@ -587,11 +587,11 @@ impl<const BITS: usize, const LIMBS: usize> Shr<Self> for Uint<BITS, LIMBS> {
         if BITS == 0 {
             return self;
         }
-        // Rationale: if BITS is larger than 2**64 - 1, it means we're running
-        // on a 128-bit platform with 2.3 exabytes of memory. In this case,
-        // the code produces incorrect output.
-        #[allow(clippy::cast_possible_truncation)]
-        self.wrapping_shr(rhs.as_limbs()[0] as usize)
+        // A shift amount that does not fit `usize` shifts out every bit.
+        match usize::try_from(rhs) {
+            Ok(rhs) => self.wrapping_shr(rhs),
+            Err(_) => Self::ZERO,
+        }
     }
 }
 
